@@ -45,7 +45,7 @@ impl Prop for P {
         let mut z = 0u32;
         while z < 4096 {
             let strategy = if z % 2 == 0 { 0 } else { 4 };
-            let cfg = Config { ctor: Ctor::Flags, level: 1, strategy, zlib: true, wbits: 15 };
+            let cfg = Config { ctor: Ctor::Flags, level: 1, strategy, zlib: true, wbits: 15, hand: 0 };
             let data = Recipe { segs: vec![Seg::Run { byte: 0, n: z }, Seg::Random { n: 70_000, seed: 0x5eed ^ z as u64 }], twice: false };
             let out = [997u32, 64, 4096][(z % 3) as usize];
             v.push(Case { data, cfg, sched: Schedule { steps: vec![], finish_out: vec![out] } });
@@ -70,7 +70,7 @@ impl Prop for P {
                 let n = total + 300 + (seed % 5000) as u32;
                 let seg = if seed & 1 == 0 { Seg::Alphabet { k: alpha, n, seed } } else { Seg::Text { n, seed } };
                 let steps = vec![Step { in_take: s1, out_size: out, flush: fl }, Step { in_take: total - s1.min(total), out_size: out, flush: 0 }];
-                Case { data: Recipe { segs: vec![seg], twice: false }, cfg: Config { ctor: Ctor::Flags, level, strategy, zlib, wbits: 15 }, sched: Schedule { steps, finish_out: vec![out] } }
+                Case { data: Recipe { segs: vec![seg], twice: false }, cfg: Config { ctor: Ctor::Flags, level, strategy, zlib, wbits: 15, hand: 0 }, sched: Schedule { steps, finish_out: vec![out] } }
             });
         prop_oneof![12 => general, 1 => ring_end].boxed()
     }
